@@ -1591,7 +1591,9 @@ void Handler::handleIdentifiedArg( detail::TypedArgBase* hdl,
                                    const string& value)
 {
 
-   mConstraints.argumentIdentified( key);
+   // always use the complete key of the argument: on the command line the
+   // argument may have been given with an abbreviated long key
+   mConstraints.argumentIdentified( hdl->key());
    executeGlobalConstraints( hdl->key());
 
    if (mVerbose)
